@@ -7,16 +7,17 @@ tests (harness/py/c20_run_unittests.py) say.
     python3 tools/props/c20_selftest.py /tmp/rw-c20 [mutation names...]
     git -C /repo worktree remove --force /tmp/rw-c20
 
-M1..M13 break C20 (every one must end in `VIOLATION property=C20`); FIX-* are the repairs proposed for
-F29b / F29c (the monitor must stop reporting that finding; the model no longer matches the code, which
-is reported as a broken correspondence until Model/RouteCtl.v follows the fix)."""
+M1..M16 and REVERT-1b62c73 (the reverse of the repair of F29a/F29b) break C20: every one must end in
+`VIOLATION property=C20`; FIX-c-name is a repair proposed for F29c (the monitor must stop reporting that
+finding; the model no longer matches the code, which is reported as a broken correspondence until
+Model/RouteCtl.v follows the fix)."""
 import subprocess, sys, os, json
 VERIF = os.path.dirname(os.path.dirname(os.path.dirname(os.path.abspath(__file__))))
 RW = sys.argv[1]; F = RW + "/conf/route_control.py"
 ORIG = open(F).read()
 MUTS={
  "M1-gate-counter-not-incremented": [("            self._module_gate_count_cache[route_module_name] += 1\n","            self._module_gate_count_cache[route_module_name] += 0\n")],
- "M2-pending-not-removed-after-install": [("            self._add_neighbor(route_entry, gateway_mac)\n            del self._unresolved_arp_queries_cache[route_entry.next_hop_ip]\n","            self._add_neighbor(route_entry, gateway_mac)\n")],
+ "M2-pending-not-removed-after-install": [("            del self._unresolved_arp_queries_cache[next_hop_ip]\n","            pass\n")],
  "M3-delete-uses-constant-prefix-len": [('                        "prefix_len": int(route_entry.prefix_len),\n','                        "prefix_len": int(route_entry.prefix_len and 24),\n')],
  "M4-fetch_mac-ignores-address": [('        if neighbor["dst"] == target_ip:\n','        if neighbor["dst"]:\n')],
  "M5-interface-filter-dropped": [("        if interface not in self._interfaces:\n            return None\n","        if interface is None:\n            return None\n")],
@@ -25,26 +26,29 @@ MUTS={
  "M8-refcount-not-incremented-for-known-neighbour": [("        self._neighbor_cache[route_entry.next_hop_ip].route_count += 1\n","        self._neighbor_cache[route_entry.next_hop_ip].route_count = 1\n")],
  "M9-gate-of-cached-neighbour-off-by-one": [("            return cached_entry.gate_idx\n","            return cached_entry.gate_idx + (1 if cached_entry.route_count > 1 else 0)\n")],
  "M10-delete-on-wrong-interface-module": [('        route_module = route_entry.interface + "Routes"\n        for _ in range(self.MAX_RETRIES):\n            try:\n                self._bess.pause_all()\n                self._bess.run_module_command(\n                    route_module,\n                    "delete",','        route_module = "access" + "Routes"\n        for _ in range(self.MAX_RETRIES):\n            try:\n                self._bess.pause_all()\n                self._bess.run_module_command(\n                    route_module,\n                    "delete",')],
- "M11-first-pending-route-wins": [("        self._unresolved_arp_queries_cache[route_entry.next_hop_ip] = route_entry\n","        self._unresolved_arp_queries_cache.setdefault(route_entry.next_hop_ip, route_entry)\n")],
+ "M11-pending-list-keeps-only-the-last-route": [("            pending.append(route_entry)\n","            pending[:] = [route_entry]\n")],
  "M12-module-delete-never-attempted": [("            if next_hop.route_count == 0:\n","            if next_hop.route_count < 0:\n")],
  "M13-link-arguments-swapped": [("                route_module_name, update_module_name, gate_idx, 0\n","                update_module_name, route_module_name, gate_idx, 0\n")],
- # the proposed repairs ("positive mutations")
+ "M14-no-purge-on-delete-while-pending": [("            if route_entry in pending:\n                pending.remove(route_entry)\n","            if route_entry in pending and False:\n                pending.remove(route_entry)\n")],
+ "M15-only-first-pending-route-installed": [("            for route_entry in route_entries:\n","            for route_entry in route_entries[:1]:\n")],
+ "M16-purge-drops-all-waiting-routes": [("                pending.remove(route_entry)\n","                pending.clear()\n")],
+ # the reverse of the repair 1b62c73 (F29a + F29b come back): must be a VIOLATION with a replay, not a known finding
+ "REVERT-1b62c73": "git-revert",
+ # a repair proposed for F29c (the monitor must stop reporting F29c; shared-MAC next hops then break)
  "FIX-c-name": [("            update_module_name = get_update_module_name(\n                route_entry.interface,\n                next_hop_mac,\n            )\n","            update_module_name = get_update_module_name(\n                route_module_name,\n                next_hop_mac,\n            )\n")],
- "FIX-a-pending-list": [
-   ("        self._unresolved_arp_queries_cache[route_entry.next_hop_ip] = route_entry\n",
-    "        pending = self._unresolved_arp_queries_cache.setdefault(route_entry.next_hop_ip, [])\n        if route_entry not in pending:\n            pending.append(route_entry)\n"),
-   ("        route_entry = self._unresolved_arp_queries_cache.get(\n            attr_dict[KEY_NETWORK_LAYER_DEST_ADDR]\n        )\n        gateway_mac = attr_dict[KEY_LINK_LAYER_ADDRESS]\n        if route_entry:\n            self._add_neighbor(route_entry, gateway_mac)\n            del self._unresolved_arp_queries_cache[route_entry.next_hop_ip]\n",
-    "        next_hop_ip = attr_dict[KEY_NETWORK_LAYER_DEST_ADDR]\n        route_entries = self._unresolved_arp_queries_cache.get(next_hop_ip)\n        gateway_mac = attr_dict[KEY_LINK_LAYER_ADDRESS]\n        if route_entries:\n            for route_entry in route_entries:\n                self._add_neighbor(route_entry, gateway_mac)\n            del self._unresolved_arp_queries_cache[next_hop_ip]\n"),
-   ('        else:\n            logger.info("Neighbor %s does not exist", route_entry.next_hop_ip)\n',
-    '        else:\n            logger.info("Neighbor %s does not exist", route_entry.next_hop_ip)\n            pending = self._unresolved_arp_queries_cache.get(route_entry.next_hop_ip, [])\n            if route_entry in pending:\n                pending.remove(route_entry)\n                if not pending:\n                    del self._unresolved_arp_queries_cache[route_entry.next_hop_ip]\n')],
- "FIX-b-purge": [('        else:\n            logger.info("Neighbor %s does not exist", route_entry.next_hop_ip)\n','        else:\n            logger.info("Neighbor %s does not exist", route_entry.next_hop_ip)\n            pending = self._unresolved_arp_queries_cache.get(route_entry.next_hop_ip)\n            if pending == route_entry:\n                del self._unresolved_arp_queries_cache[route_entry.next_hop_ip]\n')],
 }
 which=sys.argv[2:] or list(MUTS)
 for name in which:
     s=ORIG
-    for a,b in MUTS[name]:
-        assert s.count(a)==1,(name,s.count(a))
-        s=s.replace(a,b)
+    if MUTS[name] == "git-revert":
+        open(F,"w").write(ORIG)
+        d=subprocess.run(["git","-C",RW,"show","1b62c73","--","conf/route_control.py"],capture_output=True,text=True,check=True).stdout
+        subprocess.run(["git","-C",RW,"apply","-R"],input=d,text=True,check=True)
+        s=open(F).read()
+    else:
+        for a,b in MUTS[name]:
+            assert s.count(a)==1,(name,s.count(a))
+            s=s.replace(a,b)
     open(F,"w").write(s)
     env=dict(os.environ,VERIF_REPO=RW,VERIF_SEED="1")
     p=subprocess.run([sys.executable,"tools/check.py","C20","--tier","quick"],cwd=VERIF,env=env,capture_output=True,text=True)
